@@ -743,6 +743,21 @@ def profile_cli16(rnd, n, thorough, out):
                         ("C16|" + oracle) if oracle else None)
                 add_trace(out, jobs, False, False, names, kinds3, tags, r, tag)
             shutil.rmtree(cwd3, ignore_errors=True)
+        # several files that fail at the same moment under --fail-fast, all in flight: each of them printed
+        # FAILED and is a failure in the report, whichever result the collector processed first
+        if si % 2 == 0:
+            cwd5 = fresh_dir(f"c16s_{si}")
+            os.makedirs(os.path.join(cwd5, "t"), exist_ok=True)
+            names = [f"t/s{i}.slt" for i in range(4)]
+            kinds5 = {f: "fail" for f in names}
+            for f in names:
+                open(os.path.join(cwd5, f), "w").write(file_text(f, "fail", rnd, extra=False, n_before=0))
+            r, tags, ju, evs, cause, oracle = cli_run_set(cwd5, names, kinds5, 4, True, False, rnd, latency=0)
+            tag = f"cli16 set={si} jobs=4 failfast, four files failing at once"
+            out.add(climon_case(4, False, r.exit, cause, names, kinds5, tags, ju, evs), "accept", tag,
+                    ("C16|" + oracle) if oracle else None)
+            add_trace(out, 4, False, True, names, kinds5, tags, r, tag)
+            shutil.rmtree(cwd5, ignore_errors=True)
         # a selected file that has vanished when its turn comes (removed by a `system` record of an earlier
         # file): it is reported as failed, and the exit status is not 0
         if si % 4 == 2:
